@@ -52,10 +52,10 @@ var (
 	tTime = &MT{K: kTime}
 )
 
-func tList(el *MT) *MT    { return &MT{K: kList, El: el} }
-func tMap(k, v *MT) *MT   { return &MT{K: kMap, Key: k, El: v} }
-func tMaybe(el *MT) *MT   { return &MT{K: kMaybe, El: el} }
-func tObj(fs ...MF) *MT   { return &MT{K: kObj, F: fs} }
+func tList(el *MT) *MT       { return &MT{K: kList, El: el} }
+func tMap(k, v *MT) *MT      { return &MT{K: kMap, Key: k, El: v} }
+func tMaybe(el *MT) *MT      { return &MT{K: kMaybe, El: el} }
+func tObj(fs ...MF) *MT      { return &MT{K: kObj, F: fs} }
 func fld(n string, t *MT) MF { return MF{n, t} }
 
 // String renders the type with declaration order (for messages).
@@ -157,9 +157,9 @@ type MV struct {
 	Label string
 }
 
-func vNum(n float64) *MV   { return &MV{T: tNum, N: n} }
-func vStr(s string) *MV    { return &MV{T: tStr, S: s} }
-func vBool(b bool) *MV     { return &MV{T: tBool, B: b} }
+func vNum(n float64) *MV    { return &MV{T: tNum, N: n} }
+func vStr(s string) *MV     { return &MV{T: tStr, S: s} }
+func vBool(b bool) *MV      { return &MV{T: tBool, B: b} }
 func vTime(t time.Time) *MV { return &MV{T: tTime, Tm: t} }
 func vList(el *MT, xs ...*MV) *MV {
 	return &MV{T: tList(el), L: xs}
@@ -183,7 +183,7 @@ func vObj(nv ...interface{}) *MV {
 	}
 	return o
 }
-func vJust(v *MV) *MV      { return &MV{T: tMaybe(v.T), J: v} }
+func vJust(v *MV) *MV     { return &MV{T: tMaybe(v.T), J: v} }
 func vNothing(el *MT) *MV { return &MV{T: tMaybe(el)} }
 
 func (v *MV) get(name string) *MV {
